@@ -16,13 +16,14 @@ Position dtype / field dtype: float32/float32, float64/float64, float64/float32.
 Oracle (from the property statement, never from the code under test):
     power, poles, k_avg agree with the base call within TOL * max|column| (TOL by OUTPUT dtype: 3e-5 float32,
     1e-11 float64); N_mode, N_mode_poles, k_min/k_max/k_mid, mu_min/mu_max/mu_mid, column names, shapes and dtypes
-    are EXACTLY equal over all calls of the case (hence across particle sets), and - via finalize - across all
-    cases that share (nmesh, Box, binning) whatever the paste/compensation/interlacing/dtype.
+    are EXACTLY equal over all calls of the case (hence across particle sets), and - via finalize - N_mode, the k/mu
+    ranges, column names and shapes (not the dtypes) across all cases that share (nmesh, Box, binning) whatever the
+    paste/compensation/interlacing/dtype.
 A comparison that fails is re-executed (both sides, twice, identical inputs) before it is classified: if identical calls
 disagree among themselves the finding is non-deterministic painting (sig thread-count:tsc-race, the C07 stripe race seen
 through calc_power) and not a violation of the particular symmetry.
 The largest deviation of every passing comparison (the noise floor) is re-measured on every run and reported
-in the evidence (`floor_*`); a floor above 3e-6 is reported as harness-error (the transformations themselves
+in the evidence (`floor_*`); a floor above 1e-5 is reported as harness-error (the transformations themselves
 would no longer be exact), not as a pass.
 """
 import os
@@ -66,7 +67,7 @@ NO_REPRO = True
 ENVS = {'f8': {}}      # float64-position cases get their own worker pool: each pool compiles only its own numba specialisations
 
 TOL = {'float32': 3e-5, 'float64': 1e-11}
-FLOOR_LIMIT = 3e-6
+FLOOR_LIMIT = 1e-5      # measured 1.6e-6 (nmesh <= 8) .. 2.3e-6 (nmesh 13); equivalent re-associations of the paint formula move it by ~1e-6
 NMESH = [4, 5, 6, 8, 13]   # 13: the smallest mesh whose default TSC partition has 4 concurrent stripes
 CELLS = [1.0, 250.0]
 THREADS = [2, 5, 16]
@@ -157,15 +158,22 @@ def call(c, pos, w, nthread, pos2=None, w2=None):
     return Res(_PS.calc_power(pos, g * c['h'], **kw))
 
 
-def digest(r):
+def digest(r, what):
+    """what='layout': column names, shapes and the k / mu ranges; what='nmode': N_mode and N_mode_poles.
+    Column dtypes are NOT hashed: a float64 field may legitimately give float64 power/poles/k_avg."""
     import hashlib
     m = hashlib.sha1()
-    m.update(repr(r.names).encode())
+    if what == 'layout':
+        m.update(repr(r.names).encode())
     for n in r.names:
         a = r.cols[n]
-        m.update(f'{n}:{a.dtype}:{a.shape}'.encode())
-        if n in EXACT_COLS:
-            m.update(np.ascontiguousarray(a).tobytes())
+        if what == 'layout':
+            m.update(f'{n}:{a.shape}'.encode())
+        if n in EXACT_COLS and (n.startswith('N_mode') == (what == 'nmode')):
+            canon = np.int64 if n.startswith('N_mode') else np.float64
+            if not np.array_equal(a.astype(canon), a):
+                m.update(f'{a.dtype}'.encode())      # values not representable in the canonical type: keep the dtype
+            m.update(np.ascontiguousarray(a.astype(canon)).tobytes())
     return m.hexdigest()[:16]
 
 
@@ -398,7 +406,12 @@ def run(c):
 
     evals = sum(v for k, v in cnt.items() if k.startswith('calls_'))
     extra = dict(cnt)
-    extra['frames'] = [framekey(c) + '#' + digest(frame)]
+    # layout and k/mu ranges: one table per (mesh, box, binning).  N_mode: one table per (mesh, box, binning, precision in
+    # which the estimator evaluates the bin edges = dtype of the returned power): the default binning puts whole shells of
+    # modes exactly ON bin edges (|k| = j*dk, edges at j*dk/2), so the side they fall on is a rounding convention of the
+    # edge arithmetic (either neighbour is legitimate); it must still never depend on the particles (checked per case).
+    extra['frames'] = [framekey(c) + '#L' + digest(frame, 'layout'),
+                       framekey(c) + '@' + str(frame.cols['power'].dtype) + '#N' + digest(frame, 'nmode')]
     extra['output_dtypes'] = sorted(outd)
     show_sample = sample if (c['comp'] and c['poles'] and (c['g'], c['paste'], c['il'], c['dt']) in
                              ((8, 'TSC', 1, 'f4'), (5, 'CIC', 0, 'f4'), (6, 'TSC', 0, 'f4'), (8, 'CIC', 1, 'f84'), (5, 'TSC', 1, 'f8'))) else None
@@ -417,7 +430,7 @@ def finalize(agg, tier):
     if bad:
         k = sorted(bad)[0]
         out.append(dict(sig='exact:frame-differs-across-configurations',
-                        msg=f'N_mode / k,mu ranges / table layout differ between configurations that share (nmesh|cell|logk|mubins|poles)={k}: '
+                        msg=f'{"N_mode" if "@" in k else "k,mu ranges / table layout"} differ between configurations that share (nmesh|cell|logk|mubins|poles[@output precision])={k}: '
                             f'{len(bad[k])} different tables ({len(bad)} such groups)'))
     worst = max([v for k, v in agg.extra.items() if k.startswith('floor_')] or [0.0])
     agg.extra['floor_overall'] = worst
